@@ -805,7 +805,7 @@ class C03(Prop):
     id = "C03"
     props_file = "Props/C03.v"
     # redundant tie (core.gen_tie): these decision functions, translated from the source on every run, equal the hand model for all inputs
-    gen_tie_theorems = ['GenTie_is_result_correct_passfail', 'GenTie_get_label_threshold', 'GenTie_is_better_than_other_models']
+    gen_tie_theorems = ['GenTie_is_result_correct_passfail', 'GenTie_get_label_threshold', 'GenTie_is_better_than_other_models', 'GenTie_get_status', 'GenTie_get_positive_objects', 'GenTie_get_negative_objects', 'GenTie_PassFailResult_evaluate', 'GenTie_PassFailResult_get_num', 'GenTie_filter_objects', 'GenTie_filter_object_results']
     extra_props_files = ["Props/Pipeline.v"]     # the composed frame pipeline (C01 -> C10 -> C03 -> C04; C08 on it)
     gen_files = []
     design_ref = "DESIGN.md section 4, C03"
